@@ -511,6 +511,20 @@ def load_findings(prop_id):
     return res
 
 
+# -------------------------------------------------------------------- plugins
+
+def load_plugin(prop_id):
+    """import tools/props/<id>.py and apply the cross-property extensions of tools/props/extra.py"""
+    import importlib
+    m = importlib.import_module("props." + prop_id.lower())
+    try:
+        from props import extra
+        extra.apply(m)
+    except ImportError:
+        pass
+    return m
+
+
 # -------------------------------------------------------------------- pipeline
 
 def write_replay(ctx, payload):
